@@ -536,7 +536,18 @@ func (c *TermCtx) bvCmp(op string, a, b *Term) *Term {
 	if a == b {
 		return c.Bool(op == "bvule" || op == "bvsle")
 	}
-	return c.mk(&Term{Op: op, Args: []*Term{a, b}, Sort: BoolSort})
+	t := c.mk(&Term{Op: op, Args: []*Term{a, b}, Sort: BoolSort})
+	if (op == "bvult" || op == "bvule") && !t.open && (a.Op == "int2bv" || b.Op == "int2bv") && !c.bridgeSeen[t.id] {
+		// unsigned order agrees with the order of the values (bridge fact for hybrid mode)
+		c.bridgeSeen[t.id] = true
+		na, nb := c.BV2Nat(a), c.BV2Nat(b)
+		if op == "bvult" {
+			c.Axioms = append(c.Axioms, c.Eq(t, c.ILt(na, nb)))
+		} else {
+			c.Axioms = append(c.Axioms, c.Eq(t, c.ILe(na, nb)))
+		}
+	}
+	return t
 }
 func (c *TermCtx) BVUlt(a, b *Term) *Term { return c.bvCmp("bvult", a, b) }
 func (c *TermCtx) BVUle(a, b *Term) *Term { return c.bvCmp("bvule", a, b) }
